@@ -4,6 +4,7 @@ usage: tools/mk_seeded.py /tmp/seed /tmp/seed/results.jsonl [/tmp/seed/results_r
 import json, os, re, shutil, sys
 ROOT = os.path.dirname(os.path.dirname(os.path.abspath(__file__)))
 src, res_path = sys.argv[1], sys.argv[2]
+offset = int(os.environ.get("SEEDED_TAG_OFFSET", "0"))  # round 2 deliveries are stored as <PROP>-3 / <PROP>-4
 first = {}
 if len(sys.argv) > 3:
     for l in open(sys.argv[3]):
@@ -13,6 +14,7 @@ for l in open(res_path):
     r = json.loads(l)
     tag, res = r["tag"], r["res"]
     prop, k = tag.split("-")
+    k = str(int(k) - offset)
     d = os.path.join(src, prop, "_out")
     dst = os.path.join(ROOT, "seeded", tag)
     os.makedirs(dst, exist_ok=True)
